@@ -338,7 +338,7 @@ def run_C14():
     res.exhaustive = True
     rng = random.Random(SEED + 14)
     scale_kinds = ["none", "Linear", "Polynomial", "Table", "Add", "Subtract", "RTD", "Thermocouple", "Thermistor",
-                   "Strain", "AdvancedAPI", "Linear-int-coefficients"]
+                   "Strain", "AdvancedAPI", "Linear-int-coefficients", "Linear-identity", "Polynomial-identity"]
     for tname in list(RAW_TYPES):
         for sk in scale_kinds:
             for n in (6, 0):
@@ -351,6 +351,14 @@ def run_C14():
                 elif sk == "Linear-int-coefficients":
                     props = [("NI_Scale[0]_Scale_Type", 0x20, "Linear"), ("NI_Scale[0]_Linear_Slope", 3, 2),
                              ("NI_Scale[0]_Linear_Y_Intercept", 3, 1), ("NI_Number_Of_Scales", 7, 1)]
+                elif sk == "Linear-identity":
+                    props = [("NI_Scale[0]_Scale_Type", 0x20, "Linear"), ("NI_Scale[0]_Linear_Slope", 10, 1.0),
+                             ("NI_Scale[0]_Linear_Y_Intercept", 10, 0.0), ("NI_Number_Of_Scales", 7, 1)]
+                elif sk == "Polynomial-identity":
+                    props = [("NI_Scale[0]_Scale_Type", 0x20, "Polynomial"),
+                             ("NI_Scale[0]_Polynomial_Coefficients_Size", 7, 2),
+                             ("NI_Scale[0]_Polynomial_Coefficients[0]", 10, 0.0),
+                             ("NI_Scale[0]_Polynomial_Coefficients[1]", 10, 1.0), ("NI_Number_Of_Scales", 7, 1)]
                 elif sk in ("Add", "Subtract"):
                     props = [("NI_Scale[0]_Scale_Type", 0x20, "Linear"), ("NI_Scale[0]_Linear_Slope", 10, 2.0),
                              ("NI_Scale[0]_Linear_Y_Intercept", 10, 1.0), ("NI_Scale[1]_Scale_Type", 0x20, sk),
